@@ -424,6 +424,7 @@ std::string sqf::fileio::impl_default::read_file(sqf::runtime::fileio::pathinfo 
     else
     {
         auto res = sqf::runtime::fileio::read_file_from_disk(info.physical);
-        return *res;
+        // what cannot be read (a directory, a file that is gone by now) has no content
+        return res.has_value() ? *res : std::string();
     }
 }
